@@ -55,3 +55,17 @@ Print Assumptions C01_ctor_clamps.
 Print Assumptions C01_from_bitset_clamps.
 Print Assumptions C01_code_probes_nonempty_in_range.
 Print Assumptions C01_redis_no_false_negative.
+
+(* Redis: a new filter (fresh keys) reports every element absent -- its Lookup is the in-memory
+   Lookup (refinement), which is false on the empty filter whenever there is at least one probe *)
+From GX.Proofs Require RedisBloomRefine.
+Theorem C01_redis_empty_all_absent : forall bpos s size0 k0 key meta h s' f x,
+  rbloom_new s size0 k0 key meta = (Ok h, s') -> bloom_new_params size0 k0 = Ok f -> meta <> key ->
+  bpos (b_size f) (b_k f) x <> [] ->
+  rbloom_lookup bpos s' h x = Ok false.
+Proof.
+  intros bpos s size0 k0 key meta h s' f x Hn Hf Hk Hp.
+  rewrite (RedisBloomRefine.bloom_lookup_refines bpos s' h f x (RedisBloomRefine.bloom_new_refines s size0 k0 key meta h s' f Hn Hf Hk)).
+  f_equal. exact (empty_all_absent bpos size0 k0 f x Hf Hp).
+Qed.
+Print Assumptions C01_redis_empty_all_absent.
